@@ -32,12 +32,12 @@ theorem clkEpoch_toNat {c : SysClock.State} (h : c.epoch ≤ SysClock.maxU64) :
     executes exactly the recorded calls, in order, on the clock. -/
 theorem C19_gen_product (l : S_Pll) (c : SysClock.State) (hc : c.epoch ≤ SysClock.maxU64)
     (now : Int) (off : Int64) (w pw : F64) :
-    match adjustments_Pll_Do l off w (clkEpoch c) now pw with
+    match genDo l off w (clkEpoch c) now pw with
     | none => ∃ k, PllClock.update { pll := pl l, clk := c } now off.toInt w pw = .pllPanic k
     | some (l', acts) =>
       PllClock.update { pll := pl l, clk := c } now off.toInt w pw =
         PllClock.calls (pl l) (pl l') c [] (acts.map act) := by
-  cases hd : adjustments_Pll_Do l off w (clkEpoch c) now pw with
+  cases hd : genDo l off w (clkEpoch c) now pw with
   | none =>
     obtain ⟨k, hk⟩ := doCall_none (x := ⟨clkEpoch c, now, off, w, pw⟩) hd
     simp only [stepIn, Call.toIn, clkEpoch_toNat hc] at hk
@@ -54,13 +54,13 @@ theorem C19_gen_product (l : S_Pll) (c : SysClock.State) (hc : c.epoch ≤ SysCl
 theorem C19_gen_product_own_step_restarts (l l' : S_Pll) (c : SysClock.State)
     (hov : c.epoch < SysClock.maxU64) (now : Int) (off : Int64) (w pw : F64)
     (acts : List Go.ClkAction) (x : Int64)
-    (h : adjustments_Pll_Do l off w (clkEpoch c) now pw = some (l', acts))
+    (h : genDo l off w (clkEpoch c) now pw = some (l', acts))
     (hx : Go.ClkAction.step x ∈ acts) :
     ∃ c', PllClock.calls (pl l) (pl l') c [] (acts.map act) =
         .ok { pll := pl l', clk := c' } (SysClock.cancelActs c ++ [.setOffset x.toInt]) ∧
       SysClock.epoch c' = SysClock.epoch c + 1 ∧ c'.adjustment = none ∧
       ∀ (now' : Int) (off' : Int64) (w' pw' : F64),
-        adjustments_Pll_Do l' off' w' (clkEpoch c') now' pw' =
+        genDo l' off' w' (clkEpoch c') now' pw' =
           some ({ l' with epoch := clkEpoch c', mode := 1, t0 := now', t := now' }, []) := by
   have hc : c.epoch ≤ SysClock.maxU64 := by omega
   have hs := doCall_some (x := ⟨clkEpoch c, now, off, w, pw⟩) h
@@ -91,7 +91,7 @@ theorem C19_gen_product_external_step_restarts (l : S_Pll) (c : SysClock.State) 
     (hsync : l.epoch = clkEpoch c) (hc : c.epoch ≤ SysClock.maxU64)
     (hfin : (SysClock.final c ops).epoch ≤ SysClock.maxU64)
     (hstep : 1 ≤ SysClock.okSteps c ops) (now : Int) (off : Int64) (w pw : F64) :
-    adjustments_Pll_Do l off w (clkEpoch (SysClock.final c ops)) now pw =
+    genDo l off w (clkEpoch (SysClock.final c ops)) now pw =
       some ({ l with epoch := clkEpoch (SysClock.final c ops), mode := 1, t0 := now, t := now }, []) := by
   apply C19_gen_epoch_restarts
   intro heq
@@ -104,13 +104,13 @@ theorem C19_gen_product_external_step_restarts (l : S_Pll) (c : SysClock.State) 
     the clock's epoch becomes 1, and the fourth call (epoch 1 ≠ the PLL's 0) restarts. -/
 example :
     let w := ofInt 10
-    let l1 := next gInit (adjustments_Pll_Do gInit 5000000 w (clkEpoch SysClock.init) 100000000000 fzero)
-    let r2 := adjustments_Pll_Do l1 5000000 w (clkEpoch SysClock.init) 102000000001 fzero
+    let l1 := next gInit (genDo gInit 5000000 w (clkEpoch SysClock.init) 100000000000 fzero)
+    let r2 := genDo l1 5000000 w (clkEpoch SysClock.init) 102000000001 fzero
     let l2 := next l1 r2
     let c2 : SysClock.State := { SysClock.init with epoch := 1 }
     r2.map (·.2) = some [.step 5000000] ∧
     PllClock.calls (pl l1) (pl l2) SysClock.init [] [.step 5000000] = .ok { pll := pl l2, clk := c2 } [.setOffset 5000000] ∧
-    (adjustments_Pll_Do l2 5000000 w (clkEpoch c2) 108000000002 fzero).map (fun r => (r.1.mode, r.1.epoch, r.2)) =
+    (genDo l2 5000000 w (clkEpoch c2) 108000000002 fzero).map (fun r => (r.1.mode, r.1.epoch, r.2)) =
       some (1, 1, []) := by decide +kernel
 
 end ScionTime.Props.C19Gen
